@@ -249,8 +249,9 @@ def recover(tree: ast.Module, src: str, rel: str) -> int:
     table = load_table().get(rel)
     if not table:
         return 0
-    from .normalize import eliminate_new_aliases, inline_new_helpers
-    n = inline_new_helpers(tree, set(table))
+    from .normalize import eliminate_new_aliases, hoist_walrus, inline_new_helpers
+    n = hoist_walrus(tree) if ":=" in src else 0
+    n += inline_new_helpers(tree, set(table))
     scopes = _function_scopes(tree)
     # inner scopes first: an outer rename then sees the final inner names when checking for capture
     for sc in sorted(scopes, key=lambda s: -s.qual.count(".")):
